@@ -189,7 +189,8 @@ impl CssStyle {
     /// optional whitespace / comment between two tokens
     fn gap(&mut self, out: &mut String, default_space: bool) {
         if self.comments && self.chance(1, 4) {
-            out.push_str("/* c */");
+            let k = self.below(7);
+            out.push_str(["/* c */", "/**/", "/***/", "/* x **/", "/** doc */", "/*****/", "/* a*b / c */"][k]);
         }
         if self.minify {
             return;
